@@ -278,7 +278,7 @@ def step (s : St) (w : List String) : St × String :=
     -- GetAllMissingNodes reads the root key even when it is nil (empty trie): the nil key is recorded as missing
     ({ s with hit := (if s.root.isEmpty then [[]] else allMissing pt) ++ s.hit }, missStr pt)
   | ["mkeys"] => (s, "ok " ++ fmtKeys s.hit)
-  | ["restore", _] =>
+  | "restore" :: _ =>
     ({ s with cur := mergeDB 0 s.cur (donorOf s s.removed), removed := [] }, "ok")
   | ["cwalk"] =>
     let pt := ptOf s s.cur
@@ -310,7 +310,7 @@ def step (s : St) (w : List String) : St × String :=
         | .nodeNotFound => "nodenotfound"
         | .missingNodes => "missingnodes"
         | .iterChild => "iterchild")
-  | ["repair", v] =>
+  | "repair" :: v :: _ =>
     let cur' := mergeDB v.toNat! s.cur (donorOf s s.removed)
     let pt := ptOf s cur'
     ({ s with cur := cur', removed := [], hit := [] },
